@@ -40,7 +40,7 @@ exceptional case of the affine formulas: vertical tangent or chord) - implied by
 `P` on `E` is used only to get `y_P ≠ 0` (`E(Fq)` has no 2-torsion: `-4` is not a cube), which makes
 every line value, hence the textbook Miller value, non-zero.  Without it: `pairing_is_reduced_ate_or_none`.
 
-NOT PROVED: bilinearity / non-degeneracy (no divisor theory); that `textbookMiller` is the Miller
+NOT proved IN THIS FILE: bilinearity / non-degeneracy (PROVED in PP/Props/C03Bilinear.lean without divisor theory); that `textbookMiller` is the Miller
 function `f_{|x|,ψQ}(P)` in the sense of divisors is the DEFINITION used here (product of line functions),
 not a theorem about divisors.
 -/
